@@ -20,7 +20,7 @@ Suites
   tterm    (proof tie)   coq/Grammar/TurtleIri.v <-> the IRIREF branch of SinkParser.uri_ref2 (two-pass unescaping, join), called directly;
                          specification: Turtle IRIREF production + RFC 3986 resolution.
   tpname   (proof tie)   coq/Grammar/TurtlePname.v <-> SinkParser.qname + the prefix lookup of uri_ref2, called directly;
-                         specification: Turtle PNAME_NS / PNAME_LN (finding C05r).
+                         specification: Turtle PNAME_NS / PNAME_LN (finding C05r, repaired by 981b2a74).
   relref   (conformance) one relative IRI reference per Turtle/TriG document, every RFC 3986 kind x every kind of base x
                          @base / BASE / publicID, against the harness's own RFC 3986 5.2 resolver (findings C05l-p, repaired by 2947bd7e).
 """
@@ -2344,8 +2344,6 @@ class TPname(Suite):
     model = "p_model"
     oeq = "pair_eqb"
     spec = "p_spec_ok"
-    kf = "p_kf"
-    kf_ids = {18: "C05r"}
     corr = "notation3.SinkParser.qname, uri_ref2 (prefixed-name branch: self._bindings[pfx] + ln)"
     quick_n = 400
     thorough_n = 6000
